@@ -202,6 +202,14 @@ fn churn_stream(rep: &mut Report, rng: &mut Rng, n: usize) {
         let mut cmds: Vec<String> = vec![];
         if rule_first { cmds.push(rules.clone()); cmds.push("(set (f 5000) 7)".into()); cmds.push("(run copy 1)".into()); }
         cmds.push((0..pre).map(|k| format!("(set (f {k}) 100) (Node (Leaf {k}))")).collect::<Vec<_>>().join(" "));
+        // variant: the churned keys are first written by a RULE in one iteration together with extra never-touched keys,
+        // so that one timestamp bucket holds live leading rows followed by rows that get superseded
+        let fill_by_rule = rng.chance(1, 2);
+        if fill_by_rule {
+            cmds.push(format!("(relation seed (i64)) (ruleset fill) (rule ((seed x)) ((set (f x) {})) :ruleset fill)", if merge == "min" { 200 } else { 0 }));
+            cmds.push((0..10).map(|k| format!("(seed {})", 900 + k)).chain((0..churn).map(|k| format!("(seed {})", 1000 + k))).collect::<Vec<_>>().join(" "));
+            cmds.push("(run fill 1)".into());
+        }
         for r in 0..rounds {
             let val = if merge == "min" { 100 - r } else { 100 + r };
             cmds.push((0..churn).map(|k| format!("(set (f {}) {val})", 1000 + k)).collect::<Vec<_>>().join(" "));
